@@ -1,5 +1,6 @@
 import SaModel.Props.C09
 import SaModel.Lemmas.C09SoundField
+import SaModel.Lemmas.C09Entries
 /-
 C09, second part: `SchemaOK` is NECESSARY for the JSON round trip, and `validate_field` as a theorem.
 
@@ -13,8 +14,11 @@ C09, second part: `SchemaOK` is NECESSARY for the JSON round trip, and `validate
 * `C09_map_sorted_read_as_unsorted`, `C09_union_read_as_dense` — what happens instead: the printer does not look at the
   flag / mode / ids, so the field reads back, without an error, as its unsorted / dense-renumbered twin whenever that
   twin is in `SchemaOK`.
-* `C09_foreign_iff` — `validate_field` accepts a foreign field object exactly when it is `validField`, under the two side
-  conditions of `Spec/SchemaSide.lean`; `C09_foreign_entries_unchecked` shows that the second one cannot be dropped.
+* `C09_foreign_iff` — `validate_field` accepts a foreign field object exactly when it is `validField` (side condition
+  `rangeField` of `Spec/SchemaSide.lean`: numeric parameters are values of their Rust types).
+  `C09_foreign_entries_refused`: a foreign field with a map, at any depth, whose entries struct carries a strategy no struct
+  admits is refused; `C09_foreign_entries_unchecked_pinned`: before `fix: validate_map_field validates the entries field
+  itself` such a field was accepted (witness), which is why `C09_foreign_iff` used to need a second side condition.
 -/
 namespace SaModel.Props.C09
 open SaModel SaModel.Dsl SaModel.SchemaJson
@@ -153,40 +157,81 @@ theorem acceptForeign_eq (f f' : Field) (h : acceptForeign f = .ok f') :
 
 /-- **C09, foreign field objects, exact.**  `validate_field` accepts a foreign field object if and only if it is a valid
 schema (`validField`), given that its numeric parameters are values of their Rust types (`rangeField`: true of every Rust
-value) and that the entries struct of every map carries a struct's strategy or none (`entriesField`). -/
-theorem C09_foreign_iff (f : Field) (hr : rangeField f = true) (he : entriesField f = true) :
+value; a hypothesis only because the model's `Field` carries unbounded integers). -/
+theorem C09_foreign_iff (f : Field) (hr : rangeField f = true) :
     (acceptForeign f).isOk = true ↔ validField f = true := by
   obtain ⟨n, dt, nl, m⟩ := f
   have e1 : rangeField (.mk n dt (normNullable dt nl) m) = true := by simpa [rangeField] using hr
-  have e2 : entriesField (.mk n dt (normNullable dt nl) m) = true := by simpa [entriesField] using he
   constructor
   · intro h
     cases hv : validateField (.mk n dt (normNullable dt nl) m) with
     | error e => simp [acceptForeign, hv, bind, Except.bind, R.isOk] at h
     | ok u =>
-      have := validField_of_validate _ e1 e2 hv
+      have := validField_of_validate _ e1 hv
       simpa [validField] using this
   · intro h
     have hv : validField (.mk n dt (normNullable dt nl) m) = true := by simpa [validField] using h
     simp [acceptForeign, validateField_of_valid _ hv, bind, Except.bind, pure, Except.pure, R.isOk]
 
-/-- both side conditions follow from validity: on valid fields nothing is assumed -/
+/-- the side condition follows from validity (and so does `entriesField`): on valid fields nothing is assumed -/
 theorem C09_foreign_side (f : Field) (h : validField f = true) : rangeField f = true ∧ entriesField f = true :=
   side_of_valid f h
 
-/-- `validate_map_field` validates the two fields inside the entries struct, not the entries field itself: a foreign map
-whose entries struct is annotated with a strategy no struct may carry (here an unknown name) is accepted unchanged,
-although `validField` (and `validate_field` applied to the entries field on its own) rejects it.  The JSON form cannot
-produce such a field (`C09_reader_sound`). -/
+/-- **C09, foreign field objects: the entries field of a map is validated.**  A foreign field that contains, at any
+depth, a map whose entries struct carries a strategy no struct admits (`InconsistentTypes`, `UnknownVariant`, an unknown
+name: `entriesField f = false`) is refused by `from_value` — for every field, no side condition. -/
+theorem C09_foreign_entries_refused (f : Field) (h : entriesField f = false) : (acceptForeign f).isOk = false := by
+  obtain ⟨n, dt, nl, m⟩ := f
+  cases hv : validateField (.mk n dt (normNullable dt nl) m) with
+  | error e => simp [acceptForeign, hv, bind, Except.bind, R.isOk]
+  | ok u =>
+    have := entriesField_of_validate _ hv
+    simp only [entriesField] at this h
+    rw [this] at h; cases h
+
+/-- the instance at the top: a map whose entries struct carries such a strategy, whatever else the field contains -/
+theorem C09_foreign_entries_refused_top (name en : String) (fs : Fields) (enl sorted nullable : Bool) (em m : Metadata)
+    (h : structStrat em = false) :
+    (acceptForeign (.mk name (.map (.mk en (.struct fs) enl em) sorted) nullable m)).isOk = false :=
+  C09_foreign_entries_refused _ (by simp [entriesField, entriesType, entryStrat, h])
+
+/-- **the repair changes nothing else.**  On every field whose map entries structs carry a struct's strategy or none
+(`entriesField`: in particular on every valid field, `C09_foreign_side`) `from_value` before and after the fix is the same
+function of the foreign field object — same result, same error. -/
+theorem C09_foreign_pinned_eq (f : Field) (h : entriesField f = true) : acceptForeignPinned f = acceptForeign f := by
+  obtain ⟨n, dt, nl, m⟩ := f
+  have e : entriesField (.mk n dt (normNullable dt nl) m) = true := by simpa [entriesField] using h
+  simp only [acceptForeignPinned, acceptForeign, validateFieldPinned_eq _ e]
+
+/-- whatever the repaired `from_value` accepts the pinned one accepted, with the same result: the fix only refuses -/
+theorem C09_foreign_pinned_of_repaired (f f' : Field) (h : acceptForeign f = .ok f') : acceptForeignPinned f = .ok f' := by
+  cases he : entriesField f with
+  | true => rw [C09_foreign_pinned_eq f he]; exact h
+  | false => have := C09_foreign_entries_refused f he; simp [h, R.isOk] at this
+
+/-- The witness of the repaired defect: a foreign map whose entries struct is annotated with a strategy no struct may
+carry (here an unknown name); `validField` rejects it, and so does `validate_field` applied to the entries field on its
+own.  The JSON form cannot produce such a field (`C09_reader_sound`). -/
 def foreignEntriesWitness : Field :=
   .mk "m" (.map (.mk "entries" (.struct (.cons (.mk "key" .utf8 false []) (.cons (.mk "value" .int32 true []) .nil)))
     false [(STRATEGY_KEY, "no such strategy")]) false) false []
 
-theorem C09_foreign_entries_unchecked :
+/-- **pinned** (`validate_map_field` before the fix validated the two fields inside the entries struct, not the entries
+field itself): the witness — not a valid schema, parameters in range — was accepted unchanged, although the same entries
+field on its own was refused; the schema the crate then wrote was refused by its own reader (`C09_invalid_never_survives`). -/
+theorem C09_foreign_entries_unchecked_pinned :
     validField foreignEntriesWitness = false ∧ rangeField foreignEntriesWitness = true ∧
-    entriesField foreignEntriesWitness = false ∧ acceptForeign foreignEntriesWitness = .ok foreignEntriesWitness ∧
-    (validateField (.mk "entries" (.struct (.cons (.mk "key" .utf8 false []) (.cons (.mk "value" .int32 true []) .nil)))
+    entriesField foreignEntriesWitness = false ∧
+    acceptForeignPinned foreignEntriesWitness = .ok foreignEntriesWitness ∧
+    (validateFieldPinned (.mk "entries" (.struct (.cons (.mk "key" .utf8 false []) (.cons (.mk "value" .int32 true []) .nil)))
       false [(STRATEGY_KEY, "no such strategy")])).isOk = false := by
+  decide +kernel
+
+/-- repaired: the witness is refused, with the error the entries field gets on its own -/
+theorem C09_foreign_entries_witness_refused :
+    acceptForeign foreignEntriesWitness = fail "Unknown strategy" ∧
+    validateField (.mk "entries" (.struct (.cons (.mk "key" .utf8 false []) (.cons (.mk "value" .int32 true []) .nil)))
+      false [(STRATEGY_KEY, "no such strategy")]) = fail "Unknown strategy" := by
   decide +kernel
 
 /-! ## non-vacuity -/
@@ -201,8 +246,18 @@ example : parseField (printField esc0 unionIdsWitness) =
     .ok (.mk "u" (.union (.cons 0 (.mk "A" .int8 false []) (.cons 1 (.mk "B" .utf8 true []) .nil)) .dense) false []) :=
   C09_union_read_as_dense esc0 _ _ _ _ _ (by decide +kernel)
 example : idsFrom 0 (.cons 5 (.mk "A" .int8 false []) .nil) = false := by decide +kernel
-example : rangeField exampleField = true ∧ entriesField exampleField = true ∧ (acceptForeign exampleField).isOk = true := by
+example : rangeField exampleField = true ∧ validField exampleField = true ∧ (acceptForeign exampleField).isOk = true := by
   decide +kernel
+example : (acceptForeign foreignEntriesWitness).isOk = false :=
+  C09_foreign_entries_refused _ C09_foreign_entries_unchecked_pinned.2.2.1
+-- a struct-admitted strategy on the entries field is accepted (the repair refuses only what a struct field refuses)
+example : (acceptForeign (.mk "m" (.map (.mk "entries" (.struct (.cons (.mk "key" .utf8 false []) (.cons (.mk "value" .int32 true []) .nil)))
+    false [(STRATEGY_KEY, "MapAsStruct")]) false) false [])).isOk = true := by decide +kernel
+-- a strategy that is known but not a struct's, deeper inside: refused now, accepted before
+example : (acceptForeign (.mk "l" (.list (.mk "m" (.map (.mk "entries" (.struct (.cons (.mk "key" .utf8 false []) (.cons (.mk "value" .int32 true []) .nil)))
+      false [(STRATEGY_KEY, "UnknownVariant")]) false) false [])) false [])).isOk = false ∧
+    (acceptForeignPinned (.mk "l" (.list (.mk "m" (.map (.mk "entries" (.struct (.cons (.mk "key" .utf8 false []) (.cons (.mk "value" .int32 true []) .nil)))
+      false [(STRATEGY_KEY, "UnknownVariant")]) false) false [])) false [])).isOk = true := by decide +kernel
 example : (acceptForeign (.mk "t" (.time32 .nanosecond) false [])).isOk = false ∧
     validField (.mk "t" (.time32 .nanosecond) false []) = false := by decide +kernel
 
